@@ -258,15 +258,14 @@ func (t *Template) expectString(context string) string {
 func (t *Template) parseTemplate(cacheAfterParsing bool) (next Node) {
 	t.Root = t.newList(t.peek().pos)
 	// whitespace-only text is dropped only next to leading extends/import clauses:
-	// leading is the whitespace seen before any such clause, it is kept if none follows
-	var leading *item
+	// leading is all the whitespace seen before any such clause, it is kept if none follows
+	var leading []item
 	// {{ extends|import stringLiteral }}
 	for t.peek().typ != itemEOF {
 		delim := t.next()
 		if delim.typ == itemText && strings.TrimSpace(delim.val) == "" {
 			if t.extends == nil && len(t.imports) == 0 {
-				ws := delim
-				leading = &ws
+				leading = append(leading, delim)
 			}
 			continue //skips empty text nodes
 		}
@@ -304,8 +303,8 @@ func (t *Template) parseTemplate(cacheAfterParsing bool) (next Node) {
 		}
 	}
 
-	if leading != nil {
-		t.Root.append(t.newText(leading.pos, leading.val))
+	for i := range leading {
+		t.Root.append(t.newText(leading[i].pos, leading[i].val))
 	}
 
 	for t.peek().typ != itemEOF {
